@@ -31,6 +31,7 @@ func C09(r *core.Run) {
 	astFieldCoverage(r)
 	emptyArrayForm(r)
 	renderedTextOpaque(r)
+	inlineCommentKind(r)
 }
 
 // C11 — BCL parser is total and every diagnostic points inside the file.
